@@ -96,7 +96,7 @@ against the checks as they stood after round 4): %d detected as the checks stood
 |---|---|---|
 '''%(n5,n5-m5,m5)+'\n'.join(r5)+'''
 
-**Round 6** (%d changes so far, the brief of round 2 again — "aim beyond what a small-scope explorer
+**Round 6** (%d changes, the brief of round 2 again — "aim beyond what a small-scope explorer
 covers" — with the ideas of all earlier rounds listed as used up; run against the checks as they
 stood after round 5): %d detected as the checks stood, **%d missed at first**. All are detected
 now. What the misses had in common this time was not a size boundary but a *band* or a *tiling*: a
